@@ -1,7 +1,11 @@
 ------------------------- MODULE SnowCodec_Trace -------------------------
 (* Validates results of the real codec functions against the CONTRACT of   *)
 (* SnowCodec.  All 64-bit values are 4 limbs of 16 bits.                   *)
-(*   reset {nb, low, epoch}         layout installed (VerifSetConfig)      *)
+(*   reset {nb, low, epoch}         layout installed (hook or Setup); also *)
+(*                                  separates traces                       *)
+(*   layout {nb, low, epoch}        the layout is changed inside a trace:  *)
+(*                                  every result is judged under the       *)
+(*                                  layout in force when it was computed   *)
 (*   id    {id, ts, node, step,     IDFields(id); IDParse(id) (absolute    *)
 (*          pms, pnode, pstep,      ms); IDParseEx(id) (time.Time as       *)
 (*          xms, xnode, xstep}      absolute ms)                           *)
@@ -60,6 +64,7 @@ TraceNext ==
   /\ q' = [op |-> "ev"]
   /\ LET e == TraceLog[l] IN
        CASE e.ev = "reset" -> TReset(e)
+         [] e.ev = "layout" -> TReset(e)     \* the layout is changed in the middle of a history
          [] e.ev = "id"    -> TId(e)
          [] e.ev = "pair"  -> TPair(e)
          [] e.ev = "date"  -> TDate(e)
